@@ -3,7 +3,7 @@
 From Coq Require Import List String Bool Arith NArith Permutation.
 From Helm Require Import Common.Assoc Common.Strs Storage.Spec Storage.Mem Storage.Kube
   Storage.Proofs Storage.Refine Storage.MemProofs Storage.KubeProofs Storage.Corollaries
-  Storage.Examples Storage.Tables Storage.MemNs Storage.MemNsProofs Storage.KubeX Storage.KubeXProofs
+  Storage.Examples Storage.Tables Storage.Rmw Storage.MemNs Storage.MemNsProofs Storage.KubeX Storage.KubeXProofs Storage.KubeLabels
   Gen.SystemLabels.
 Import ListNotations.
 Local Open Scope string_scope.
@@ -222,7 +222,8 @@ Proof. exact system_labels_table. Qed.
 Print Assumptions C10_system_labels_table.
 
 (* ---------- namespaces (memory driver) ---------- *)
-(* with no hypothesis at all: for every sequence of driver calls and SetNamespace calls, on
+(* with no hypothesis at all: for every sequence of driver calls, SetNamespace calls and
+   read-modify-writes (MRmw = Storage/Rmw.v: Query{name, version}, change status, Update), on
    releases of any namespaces, the memory driver answers as one reference map per namespace
    plus a current-namespace register that every Create/Update overwrites ([nspec_step]);
    List/Query with current namespace "" range over all namespaces *)
@@ -283,3 +284,24 @@ Example C10_list_skips_undecodable_ex :
     RErr EExists; RErr EOther; ROk; RRel exx_a ].
 Proof. exact exx_outs. Qed.
 Print Assumptions C10_list_skips_undecodable_ex.
+
+(* ---------- read-modify-write: a release read back through List/Query and written again ---------- *)
+(* for EVERY release (no hypothesis on its label map — it may carry stale name/owner/status/
+   version keys, as a release that came back from List/Query does), the object the drivers
+   store is filed under the computed system labels, and a selector on system keys finds it
+   exactly when the release's own name/owner/status/version match *)
+Theorem C10_kube_system_labels_win :
+  forall (B : Type) (enc : rel -> B) (stamp : string) (r : rel),
+  (forall k, In k sys_keys ->
+     aget k (olabels B (new_object B enc stamp r)) = aget k (sys_labels r)) /\
+  (forall q, (forall k v, In (k, v) q -> In k sys_keys) ->
+     selects B q (new_object B enc stamp r) = sys_match q r).
+Proof. exact kube_system_labels_win. Qed.
+Print Assumptions C10_kube_system_labels_win.
+
+Example C10_kube_system_labels_win_ex :
+  selects rel [("status", "superseded")] (new_object rel (fun r => r) "modifiedAt" ex_stale) = true /\
+  selects rel [("status", "deployed")] (new_object rel (fun r => r) "modifiedAt" ex_stale) = false /\
+  aget "status" (rlabels ex_stale) = Some "deployed".
+Proof. exact ex_stale_selected. Qed.
+Print Assumptions C10_kube_system_labels_win_ex.
